@@ -267,6 +267,8 @@ fn build(prop: &str, tier: &str) -> Stream {
                 bytes.extend(b"\x1b[0*z");
             }
             let mut t = vec![Token { bytes, key: "macro of 5000 empty sixel sequences, invoked 12 times".into() }];
+            // the same history without the macro sub-language (an image inside a macro is charged to the expansion budget)
+            t.push(Token { bytes: b"\x1bPq\x1b\\".repeat(45_000), key: "45000 empty sixel sequences".into() });
             let mut bytes = b"\x1bP0;0;1!z!2000;1B507122313B313B323B367E1B5C;\x1b\\".to_vec();
             for _ in 0..20 {
                 bytes.extend(b"\x1b[0*z");
